@@ -35,7 +35,8 @@ Definition pairN_eqb (a b : N * N) : bool := N.eqb (fst a) (fst b) && N.eqb (snd
 Record bexc := mkexc { x_e : nat; x_cl : N; x_el : N; x_ct : N; x_et : N; x_au : N; x_st : N; x_labels : list N; x_title : list N;
                        x_nc : nat; x_actors : list N; x_parts : list N; x_meta : list (N * N) }.
 Record bsnap := mksnap { n_e : nat; n_state : N (* 0 served, 1 error, 2 the handle is locked for ever *); n_ops : list N; n_st : N;
-                         n_title : list N; n_labels : list N; n_comments : list (N * list N); n_actors : list N; n_parts : list N; n_dirty : bool }.
+                         n_title : list N; n_labels : list N; n_comments : list (N * list N); n_actors : list N; n_parts : list N; n_dirty : bool;
+                         n_anames : list N (* names of the actors as displayed through the loaded bug; not predicted by the model *) }.
 Record iexc := mkiexc { y_u : nat; y_name : N; y_meta : list (N * N) }.
 Record ires := mkires { z_u : nat; z_err : bool; z_name : N; z_dirty : bool }.
 Inductive lookres := LFound (e : nat) | LNone | LMany | LErr.
@@ -53,14 +54,15 @@ Definition bsnap_eqb (a b : bsnap) : bool :=
   Nat.eqb (n_e a) (n_e b) && N.eqb (n_state a) (n_state b) && lN (n_ops a) (n_ops b) && N.eqb (n_st a) (n_st b) && lN (n_title a) (n_title b) &&
   lN (n_labels a) (n_labels b) && list_eqb com_eqb (n_comments a) (n_comments b) && lN (n_actors a) (n_actors b) && lN (n_parts a) (n_parts b) &&
   Bool.eqb (n_dirty a) (n_dirty b).
+Definition bsnap_names_eqb (a b : bsnap) : bool := lN (n_anames a) (n_anames b).
 Definition iexc_eqb (a b : iexc) : bool := Nat.eqb (y_u a) (y_u b) && N.eqb (y_name a) (y_name b) && lKV (y_meta a) (y_meta b).
 Definition ires_eqb (a b : ires) : bool := Nat.eqb (z_u a) (z_u b) && Bool.eqb (z_err a) (z_err b) && N.eqb (z_name a) (z_name b) && Bool.eqb (z_dirty a) (z_dirty b).
 Definition lookres_eqb (a b : lookres) : bool :=
   match a, b with LFound x, LFound y => Nat.eqb x y | LNone, LNone | LMany, LMany | LErr, LErr => true | _, _ => false end.
 
 (* the first view on which two answer sheets differ: 1 excerpts, 2 identity excerpts, 3 labels, 4 queries (incl. search),
-   5 metadata lookups, 6 resolved identities, 7 resolved bugs; 0 = none *)
-Definition views_diff (a b : views) : N :=
+   5 metadata lookups, 6 resolved identities, 7 resolved bugs, 9 only the actor names shown through resolved bugs (when names = true); 0 = none *)
+Definition views_diff_gen (names : bool) (a b : views) : N :=
   if negb (list_eqb bexc_eqb (w_exc a) (w_exc b)) then 1
   else if negb (list_eqb iexc_eqb (w_idexc a) (w_idexc b)) then 2
   else if negb (lN (w_labels a) (w_labels b)) then 3
@@ -68,7 +70,10 @@ Definition views_diff (a b : views) : N :=
   else if negb (list_eqb lookres_eqb (w_meta a) (w_meta b) && list_eqb lookres_eqb (w_idmeta a) (w_idmeta b)) then 5
   else if negb (list_eqb ires_eqb (w_idres a) (w_idres b)) then 6
   else if negb (list_eqb bsnap_eqb (w_snaps a) (w_snaps b)) then 7
+  else if names && negb (list_eqb bsnap_names_eqb (w_snaps a) (w_snaps b)) then 9
   else 0.
+Definition views_diff := views_diff_gen false.     (* model against implementation *)
+Definition views_diff_full := views_diff_gen true. (* live against rebuilt *)
 
 (* ---------------- the functions: from in-memory entities to answers ---------------- *)
 Definition all_ops (m : ment bgit) : list N := snd (m_base m) ++ m_staged m.
@@ -102,7 +107,7 @@ Definition snap_of (t : optab) (e : nat) (m : ment bgit) : bsnap :=
   let sn := Snap.compile (map r_op (rows t (all_ops m))) in
   {| n_e := e; n_state := 0; n_ops := all_ops m; n_st := Snap.s_status sn; n_title := toks (Snap.s_title sn); n_labels := Snap.s_labels sn;
      n_comments := map (fun c => (Snap.c_author c, toks (Snap.c_msg c))) (Snap.s_comments sn);
-     n_actors := Snap.s_actors sn; n_parts := Snap.s_parts sn; n_dirty := is_dirty m |}.
+     n_actors := Snap.s_actors sn; n_parts := Snap.s_parts sn; n_dirty := is_dirty m; n_anames := [] |}.
 
 Definition iexc_of (u : nat) (m : ment igit) : iexc :=
   {| y_u := u; y_name := last (m_base m ++ m_staged m) 99; y_meta := [(0, N.of_nat u)] |}.
@@ -272,7 +277,7 @@ Definition predict (cw : cworld) (r : nat) (order : list nat) : cworld * views :
                           match kget e (sl (cb (ucache_of w' r))) with
                           | Some m => (w', out ++ [snap_of (c_ops c) e m])
                           | None => (w', out ++ [{| n_e := e; n_state := match gfb (gw w') r e with Some _ => 2 | None => 1 end; n_ops := []; n_st := 0; n_title := [];
-                                                     n_labels := []; n_comments := []; n_actors := []; n_parts := []; n_dirty := false |}])
+                                                     n_labels := []; n_comments := []; n_actors := []; n_parts := []; n_dirty := false; n_anames := [] |}])
                           end) order (cw3, []) in
   (cw4, {| w_exc := a_exc a; w_idexc := a_idexc a; w_labels := a_labels a; w_queries := a_queries a; w_meta := a_meta a; w_idmeta := a_idmeta a;
            w_idres := idres; w_snaps := snaps |}).
@@ -320,7 +325,7 @@ Definition step_ok (h : hev * gobs) : bool :=
   match fst h with
   | HObserve _ _ live rebuilt =>
       forallb (fun s => negb (N.eqb (n_state s) 2)) (w_snaps live) &&
-      (negb (obs_quiescent live) || N.eqb (views_diff live rebuilt) 0)
+      (negb (obs_quiescent live) || N.eqb (views_diff_full live rebuilt) 0)
   | _ => true
   end.
 Definition C11_ok (c : case) : bool := forallb step_ok (c_steps c).
@@ -333,7 +338,7 @@ Fixpoint all_bad (l : list (hev * gobs)) (i : nat) : list (nat * N) :=
   | [] => []
   | h :: t => if step_ok h then all_bad t (S i)
               else match fst h with
-                   | HObserve _ _ live rebuilt => (i, if forallb (fun s => negb (N.eqb (n_state s) 2)) (w_snaps live) then views_diff live rebuilt else 8) :: all_bad t (S i)
+                   | HObserve _ _ live rebuilt => (i, if forallb (fun s => negb (N.eqb (n_state s) 2)) (w_snaps live) then views_diff_full live rebuilt else 8) :: all_bad t (S i)
                    | _ => all_bad t (S i) end
   end.
 Definition variants : list (N * variant) := [
